@@ -980,7 +980,7 @@ func (ft *FT) emitAxioms(st *State) {
 		if ax.Lemma {
 			continue
 		}
-		if ax.PkgName != "" && (pkg == nil || pkg.Name() != ax.PkgName) {
+		if ax.PkgName != "" && (pkg == nil || pkgKey(pkg) != ax.PkgName) {
 			continue
 		}
 		ctx := &SpecCtx{ft: ft, pkg: pkg, st: st, old: st, vars: map[string]SpecVal{}}
